@@ -196,7 +196,15 @@ def random_case(rng, max_inst=60, max_roots=5):
                 db[tuple(root + [rng.randint(0, 3) for _ in range(rng.randint(1, 4))])] = 1
     if rng.random() < 0.3:
         db[tuple(base[:-1] + [9, 1])] = 1  # something after everything
-    keys = sorted(db)[:max_inst]
+    usm = rng.random() < 0.15
+    if usm:
+        # the agent's own USM statistics (usmStats) are ordinary objects: walking them must work
+        # like walking anything else, over every protocol version
+        for k in rng.sample(range(1, 7), rng.randint(1, 4)):
+            db[(1, 3, 6, 1, 6, 3, 15, 1, 1, k, 0)] = 1
+        subtrees.append(rng.choice([[1, 3, 6, 1, 6, 3, 15, 1, 1], [1, 3, 6, 1, 6], [1, 3, 6, 1, 6, 3, 15, 1, 1, 2]]))
+    keys = sorted(db)
+    keys = keys[: max_inst - 4] + keys[-4:] if usm and len(keys) > max_inst else keys[:max_inst]
     dbl = [[list(o), val_for(o)] for o in keys]
     cands = [list(s) for s in subtrees] + [base + [rng.randint(1, 14)] for _ in range(3)] + [list(k[:-1]) for k in keys[:: max(1, len(keys) // 4)]]
     rng.shuffle(cands)
@@ -212,6 +220,19 @@ def random_case(rng, max_inst=60, max_roots=5):
 
 
 # ------------------------------------------------------------------------- oracles
+def large_case(cols, rows, base=(1, 3, 6, 1, 4, 1, 9, 1)):
+    """`cols` adjacent columns of `rows` instances each, one root per column: a big table, where
+    each column's walk steps into a column that was handed out thousands of yields earlier"""
+    db = [[list(base) + [c, i], ["int", (c * 7 + i) % 1000]] for c in range(1, cols + 1) for i in range(1, rows + 1)]
+    return db, [list(base) + [c] for c in range(1, cols + 1)]
+
+
+def summary(walk):
+    """a short form of a long trace for replay files"""
+    ys = [e[1][0] for e in walk["events"] if e[0] == "yield"]
+    return {"outcome": walk["outcome"], "requests": sum(1 for e in walk["events"] if e[0] == "req"), "yields": len(ys), "distinct": len(set(map(tuple, ys))), "first": ys[:3], "last": ys[-3:]}
+
+
 def below(db, roots):
     out = []
     for o, _v in db:
@@ -237,7 +258,8 @@ def oracle_exact(db, roots, walk, single_sorted=True, per_binding=False):
             return f"value of {list(y)} differs from the agent's"
         if not any(y[: len(r)] == tuple(r) for r in roots):
             return f"yielded {list(y)} outside all roots"
-    missing = [o for o in below(db, roots) if o not in set(ys)]
+    yset = set(ys)
+    missing = [o for o in below(db, roots) if o not in yset]
     if missing:
         return f"instances below a root were not yielded: {[list(m) for m in missing[:4]]}"
     if single_sorted and len(roots) == 1 and ys != sorted(ys):
